@@ -42,6 +42,11 @@ a(1)(1260)+_width   0 422.013 2.1
 FastCoherentSum::UseCartesian 1
 D0{K*(892)bar0{K-,pi+},rho(707)0{pi+,pi-}}   0 0.3 0.01   0 1.1 0.01
 """,
+    # the amplitudes of fA under an event type that lists the same final-state particles in another order
+    "fG": """EventType D0 pi+ pi- K- pi+
+D0{K*(892)bar0{K-,pi+},rho(770)0{pi+,pi-}}   0 0.196037 0.0012135   0 -0.390311 0.00629977
+D0[D]{K*(892)bar0{K-,pi+},rho(770)0{pi+,pi-}}   2 1 0   2 0 0
+""",
     # names K(1460), whose mass and width the special particle table overrides, and no pseudo-particle
     "fF": """EventType D0 K- pi+ pi+ pi-
 D0{K(1460)bar-{K*(892)bar0{K-,pi+},pi-},pi+}   0 0.122 0.011   0 1.84 0.02
@@ -52,7 +57,7 @@ D0{K(1460)bar-{K*(892)bar0{K-,pi+},pi-},pi+}   0 0.122 0.011   0 1.84 0.02
 # abstract resonance names of AmpSession.tla -> (AmpGen name, PDG id); first mother line numbers of each file
 RES = {"r1": ("K*(892)bar0", -313), "r2": ("rho(770)0", 113), "r3": ("a(1)(1260)+", 20213), "r4": ("K(1)(1270)bar-", -10323),
        "r5": ("rho(1450)0", 100113), "r6": ("KPi00", 998111), "r7": ("PiPi00", 998101), "r8": ("omega(782)0", 223), "r9": ("K(1460)bar-", -100321)}
-FIRST = {"fA": (0.196037, -0.390311), "fB": (0.813449, -2.60325), "fC": (0.361958, 1.99329), "fD": (0.642781, 1.69828), "fE": (0.3, 1.1), "fF": (0.122, 1.84)}
+FIRST = {"fA": (0.196037, -0.390311), "fB": (0.813449, -2.60325), "fC": (0.361958, 1.99329), "fD": (0.642781, 1.69828), "fE": (0.3, 1.1), "fF": (0.122, 1.84), "fG": (0.196037, -0.390311)}
 
 
 def prog_names():
@@ -140,10 +145,10 @@ def run(tier, seed, replay_path=None):
     wd = tlc.new_workdir("c20")
     tmp = Path(tempfile.mkdtemp(prefix="c20-", dir=wd))
     try:
-        for v, expect in (("per_read", False), ("accumulating", True), ("no_restore_when_rejected", True), ("table_on_demand", True), ("params_into_particles", True)):
+        for v, expect in (("per_read", False), ("accumulating", True), ("no_restore_when_rejected", True), ("table_on_demand", True), ("params_into_particles", True), ("index_memo", True)):
             r = tlc.run("AmpSession", tlc.cfg_text(constants=dict(Variant=v, MaxLen=4, EmitMode="none"),
                                                    invariants=["HistoryIndependent"], view="AbsView"), workdir=wd, keep_records=False)
-            o.add_tlc(r, f"AmpSession variant {v}: HistoryIndependent over all histories of <= 4 calls (3 classes x 6 files)",
+            o.add_tlc(r, f"AmpSession variant {v}: HistoryIndependent over all histories of <= 4 calls (3 classes x 7 files)",
                       expect_violation=expect)
             if expect and "HistoryIndependent" not in r.violated:
                 raise Machinery(f"variant {v} not refuted")
@@ -177,6 +182,9 @@ def run(tier, seed, replay_path=None):
         chosen += [[(c3, "fC"), (c2, "fF")], [(c1, "fA"), (c2, "fF")]]
         # ... and a file carrying <name>_mass / _width parameters before another file with the same resonance
         chosen += [[(c1, "fD"), (c2, "fB")]]
+        # ... and the same amplitudes under two orders of the event type (conversions: the index lists are in the text)
+        c4 = rng.choice(cl[1:])
+        chosen += [[(c2, "fA"), (c2, "fG")], [(c4, "fG"), (c2, "fA")]]
         if replay_path:
             chosen = [[tuple(x) for x in json.load(open(replay_path))["case"]["history"]]]
         seeds = list(range(8 if deep else 3))
@@ -233,7 +241,7 @@ def run(tier, seed, replay_path=None):
                           {"history": [[c, Path(p).stem] for c, p in calls]}, {})
         o.notes.update(histories_run=len(chosen), single_calls=len(singles), hash_seeds=seeds, fresh_interpreters=len(results))
         o.sample({"history": [list(x) for x in chosen[0]], "files": TEXTS})
-        o.rule = ("histories of 2 and 3 read/convert calls (3 reader classes x 6 files with disjoint / overlapping resonances, the "
+        o.rule = ("histories of 2 and 3 read/convert calls (3 reader classes x 7 files with disjoint / overlapping resonances, the "
                   "cartesian option absent / 0 / 1, one file that is rejected after its option was applied, one whose particle parameters the special table overrides) emitted by TLC from AmpSession.tla, a sample executed each in its own fresh "
                   "interpreter; every call's result compared with the same single call in a fresh interpreter; single calls "
                   "repeated under several PYTHONHASHSEED values; a subset of histories run twice for exact reproduction; "
